@@ -37,6 +37,7 @@ import PercevalModel.Lemmas.C14Complex
 import PercevalModel.Lemmas.C14Life
 import PercevalModel.Lemmas.C14Sym
 import PercevalModel.Lemmas.C14Link
+import PercevalModel.Lemmas.C14Refl
 import PercevalModel.Num.GQ
 
 open Matrix PM Complex
@@ -1418,5 +1419,122 @@ example :
       slotFloat exI (SM.exec (xstep true) s0
         (.xnew "e" (.sub (.mul (.const 2) (.var "a")) (.powi (.var "b") (-2))) :: post)) (.ex "e") = .inr 4) := by
   decide +kernel
+
+/-! ## EXTENSION 3 — the reflectivity helpers `BS.theta_to_r`, `BS.r_to_theta`, `BS.reflectivity`
+(`Model/C14Refl.lean`): what they return is tied to the documented matrix of the beam splitter. -/
+
+/-- **`BS.reflectivity` is the squared modulus of the documented matrix.**  For every convention, every real `θ` and
+every value of the four phases, the number `math.cos(θ/2)**2` that `theta_to_r` (hence `reflectivity`) returns is
+`|U₀₀|² = |U₁₁|²` of the documented matrix, and `|U₀₁|² = |U₁₀|²` is one minus it. -/
+theorem reflectivity_is_matrix_modulus (conv : Conv) (θ φtl φbl φtr φbr : ℝ) :
+    thetaToR realInterp (.num θ)
+        = .num (some (Complex.normSq (bsDoc conv θ φtl φbl φtr φbr 0 0))) ∧
+      Complex.normSq (bsDoc conv θ φtl φbl φtr φbr 1 1) = Complex.normSq (bsDoc conv θ φtl φbl φtr φbr 0 0) ∧
+      Complex.normSq (bsDoc conv θ φtl φbl φtr φbr 0 1) = 1 - Complex.normSq (bsDoc conv θ φtl φbl φtr φbr 0 0) ∧
+      Complex.normSq (bsDoc conv θ φtl φbl φtr φbr 1 0) = 1 - Complex.normSq (bsDoc conv θ φtl φbl φtr φbr 0 0) := by
+  obtain ⟨h00, h11, h01, h10⟩ := bsDoc_normSq conv θ φtl φbl φtr φbr
+  refine ⟨?_, ?_, ?_, ?_⟩
+  · rw [h00]; rfl
+  · rw [h11, h00]
+  · rw [h01, h00]
+  · rw [h10, h00]
+
+/-- the value stored for `θ` is the requested one shifted by a whole number of spans `4π` (`wrap_spec`): the
+reflectivity computed from the STORED value is that of the requested one (the period of `cos²(θ/2)` is even `2π`) -/
+theorem reflectivity_wrap_invariant (θ : ℝ) (k : ℤ) :
+    thetaToRNum realInterp (θ + k * (4 * Real.pi)) = thetaToRNum realInterp θ ∧
+      thetaToRNum realInterp (θ + k * (2 * Real.pi)) = thetaToRNum realInterp θ := by
+  rw [thetaToRNum_real, thetaToRNum_real, thetaToRNum_real]
+  have h : θ + (k : ℝ) * (4 * Real.pi) = θ + ((2 * k : ℤ) : ℝ) * (2 * Real.pi) := by push_cast; ring
+  exact ⟨by rw [h, cos_half_sq_periodic], by rw [cos_half_sq_periodic]⟩
+
+/-- `theta_to_r` of a Parameter object that is not `defined` (a raw parameter without value, an Expression one of
+whose sub-parameters has no value) is the Expression `cos(name/2)**2`; at any values of the parameters it evaluates to `cos²(θ/2)` of
+whatever the argument evaluates to — it is live. -/
+theorem theta_to_r_expression_live (env : String → Option ℝ) (t : XExpr) :
+    thetaToR realInterp (.par t none) = .expr (thetaToRTree t) ∧
+      (thetaToRTree t).evalR env = (t.evalR env).map fun θ => Real.cos (θ / 2) ^ 2 :=
+  ⟨rfl, thetaToRTree_evalR env t⟩
+
+/-- CODE AS IT IS: `theta_to_r` of a `defined` object is a number computed once from the value `float()` reads; the
+tree plays no role, so the result does not follow a later `set_value` (a snapshot — `bs.reflectivity` of a beam
+splitter whose `theta` is a valued variable parameter is a float, of a free one an Expression). -/
+theorem theta_to_r_of_valued_is_snapshot (t t' : XExpr) (v : ℝ) :
+    thetaToR realInterp (.par t (some v)) = thetaToR realInterp (.num v) ∧
+      thetaToR realInterp (.par t (some v)) = thetaToR realInterp (.par t' (some v)) :=
+  ⟨rfl, rfl⟩
+
+/-- **`BS(r_to_theta(r))` has reflectivity `r`.**  For every `r ∈ [0, 1]`, `2*math.acos(math.sqrt(r))` is defined,
+lies in `[0, π]` (inside the nominal range `[0, 4π]` of `θ`: it is stored as it is), and the documented matrix at
+that angle has `|U₀₀|² = r` in every convention, whatever the phases; `theta_to_r` gives `r` back. -/
+theorem r_to_theta_realises_reflectivity (conv : Conv) {r : ℝ} (h0 : 0 ≤ r) (h1 : r ≤ 1) (φtl φbl φtr φbr : ℝ) :
+    rToThetaNum realInterp r = some (2 * Real.arccos (Real.sqrt r)) ∧
+      (0 ≤ 2 * Real.arccos (Real.sqrt r) ∧ 2 * Real.arccos (Real.sqrt r) ≤ Real.pi) ∧
+      Complex.normSq (bsDoc conv (2 * Real.arccos (Real.sqrt r)) φtl φbl φtr φbr 0 0) = r ∧
+      thetaToRNum realInterp (2 * Real.arccos (Real.sqrt r)) = some r := by
+  refine ⟨?_, rToTheta_range r, ?_, ?_⟩
+  · rw [rToThetaNum_real, if_pos ⟨h0, h1⟩]
+  · rw [(bsDoc_normSq conv _ φtl φbl φtr φbr).1, cos_half_rToTheta h0 h1]
+  · rw [thetaToRNum_real, cos_half_rToTheta h0 h1]
+
+/-- outside `[0, 1]` the numeric form raises (`math domain error`) -/
+theorem r_to_theta_outside_unit_interval {r : ℝ} (h : r < 0 ∨ 1 < r) : rToThetaNum realInterp r = none := by
+  rw [rToThetaNum_real, if_neg]
+  rintro ⟨h0, h1⟩
+  rcases h with h | h <;> linarith
+
+/-- `r_to_theta` inverts `theta_to_r` on `[0, π]` (beyond `π` it returns the mirror angle: `cos²` is even) -/
+theorem r_to_theta_inverts_theta_to_r {θ : ℝ} (h0 : 0 ≤ θ) (h1 : θ ≤ Real.pi) :
+    rToThetaNum realInterp (Real.cos (θ / 2) ^ 2) = some θ := by
+  have hc : 0 ≤ Real.cos (θ / 2) ^ 2 := sq_nonneg _
+  have hc1 : Real.cos (θ / 2) ^ 2 ≤ 1 := Real.cos_sq_le_one _
+  rw [rToThetaNum_real, if_pos ⟨hc, hc1⟩, rToTheta_thetaToR_real h0 h1]
+
+/-- `r_to_theta` of ANY Parameter object (valued or not) is the Expression `2*acos(sqrt(name))`: at values at which
+the argument evaluates to `r` it reads `2 arccos √r` when `r ∈ [0, 1]` — and then a `BS` whose `θ` slot reads it has
+`|U₀₀|² = r` (previous theorem) — and is not a real number otherwise (`float()` raises `TypeError`). -/
+theorem r_to_theta_expression_live {env : String → Option ℝ} {t : XExpr} {r : ℝ} (own : Option ℝ)
+    (h : t.evalR env = some r) :
+    rToTheta realInterp (.par t own) = .expr (rToThetaTree t) ∧
+      (rToThetaTree t).evalR env =
+        if 0 ≤ r ∧ r ≤ 1 then some (2 * Real.arccos (Real.sqrt r)) else none :=
+  ⟨rfl, rToThetaTree_evalR h⟩
+
+/-- **End to end, symbolic branch.**  A beam splitter whose `θ` slot holds the Expression `r_to_theta(p)` (`p` a
+parameter or any expression tree), the phases holding anything: at EVERY assignment of real values at which `p`
+evaluates to some `r ∈ [0, 1]`, the entry `[0,0]` of the symbolic matrix evaluates to a complex number of squared
+modulus `r`, and so does the numeric branch (same documented matrix, `symbolic_bs`). -/
+theorem symbolic_bs_of_r_to_theta (conv : Conv) (p tl bl tr br : XExpr) (env : String → Option ℝ) {r a b c d : ℝ}
+    (h0 : 0 ≤ r) (h1 : r ≤ 1) (hp : p.evalR env = some r) (htl : tl.evalR env = some a)
+    (hbl : bl.evalR env = some b) (htr : tr.evalR env = some c) (hbr : br.evalR env = some d) :
+    ∃ z : ℂ, (symBS conv (rToThetaTree p) tl bl tr br 0 0).evalC env = some z ∧ Complex.normSq z = r ∧
+      Complex.normSq (bsNum I conv (angR (2 * Real.arccos (Real.sqrt r) / 2)) (angR a) (angR b) (angR c) (angR d) 0 0)
+        = r := by
+  have hθ : (rToThetaTree p).evalR env = some (2 * Real.arccos (Real.sqrt r)) := by
+    rw [rToThetaTree_evalR hp, if_pos ⟨h0, h1⟩]
+  obtain ⟨hs, hn⟩ := symbolic_bs conv _ tl bl tr br env hθ htl hbl htr hbr
+  have hm : Complex.normSq (bsDoc conv (2 * Real.arccos (Real.sqrt r)) a b c d 0 0) = r := by
+    rw [(bsDoc_normSq conv _ a b c d).1, cos_half_rToTheta h0 h1]
+  exact ⟨_, hs 0 0, hm, by rw [hn]; exact hm⟩
+
+/-- **`reflectivity` as an Expression is the squared modulus of the symbolic matrix.**  Whatever tree the `θ` slot
+holds, at every assignment at which the slots evaluate, the Expression `cos(θ/2)**2` that `reflectivity` returns
+for a slot that is not defined evaluates to `|U₀₀|²` of the symbolic matrix evaluated at the same values. -/
+theorem reflectivity_expression_is_symbolic_modulus (conv : Conv) (θ tl bl tr br : XExpr)
+    (env : String → Option ℝ) {t a b c d : ℝ} (hθ : θ.evalR env = some t) (htl : tl.evalR env = some a)
+    (hbl : bl.evalR env = some b) (htr : tr.evalR env = some c) (hbr : br.evalR env = some d) :
+    ∃ z : ℂ, (symBS conv θ tl bl tr br 0 0).evalC env = some z ∧
+      (thetaToRTree θ).evalR env = some (Complex.normSq z) := by
+  obtain ⟨hs, _⟩ := symbolic_bs conv θ tl bl tr br env hθ htl hbl htr hbr
+  refine ⟨_, hs 0 0, ?_⟩
+  rw [thetaToRTree_evalR, hθ, (bsDoc_normSq conv t a b c d).1]
+  rfl
+
+/-- non-vacuity: `r = 1/3` (the reflectivity used by the post-processed CZ gate) and `θ = π/2` satisfy the hypotheses -/
+example : (0 : ℝ) ≤ 1 / 3 ∧ (1 / 3 : ℝ) ≤ 1 ∧ (0 : ℝ) ≤ Real.pi / 2 ∧ Real.pi / 2 ≤ Real.pi := by
+  refine ⟨by norm_num, by norm_num, by positivity, by linarith [Real.pi_pos]⟩
+
+/-- non-vacuity of `r_to_theta_expression_live`: the tree of a raw parameter `r` with the value `1/4` -/
+example : (XExpr.var "r").evalR (fun _ => some (1 / 4 : ℝ)) = some (1 / 4 : ℝ) := rfl
 
 end PM.C14
